@@ -1,5 +1,5 @@
 #!/bin/bash
-# mutcheck.sh <PROP> <patch.diff> [runs] [scenario]
+# mutcheck.sh <PROP> <patch.diff> [runs] [scenario]      (RACE=1 builds the scenario binary with -race, for C17)
 # Applies patch.diff to a scratch worktree of /repo (never /repo itself), instruments and
 # builds the property's scenarios against it and runs them in one worker process.
 # Prints the worker summary; exit 0 = no violation found, 1 = violation(s) found, 2 = build/patch trouble.
@@ -19,9 +19,11 @@ git -C "$W/repo" apply "$PATCH" || { echo "patch does not apply"; exit 2; }
 # hook files must map into the scratch tree
 sed -e "s#github.com/attestantio/vouch => /repo#github.com/attestantio/vouch => $W/repo#" /verif/go.mod > "$W/go.mod"
 cp /verif/go.sum "$W/go.sum"
-cd /verif && go test -c -modfile="$W/go.mod" -overlay "$W/ov/overlay.json" -o "$W/sim.test" ./simtest/$P || { echo "harness does not build against mutant"; exit 2; }
+RACEFLAG=""; [ "${RACE:-}" = "1" ] && RACEFLAG="-race"
+export GORACE="halt_on_error=0 log_path=$W/race"
+cd /verif && go test -c $RACEFLAG -modfile="$W/go.mod" -overlay "$W/ov/overlay.json" -o "$W/sim.test" ./simtest/$P || { echo "harness does not build against mutant"; exit 2; }
 mkdir -p "$W/replays"
-VERIF_PROP=$PROP VERIF_COUNT=$RUNS VERIF_SCENARIO=$SCEN VERIF_REPLAY_DIR="$W/replays" VERIF_KNOWN=/verif/known_findings.txt VERIF_OUT="$W/out.json" "$W/sim.test" -test.run '^TestWorker$' -test.timeout 0 >"$W/log" 2>&1 || { tail -30 "$W/log"; echo "worker crashed"; exit 2; }
+VERIF_PROP=$PROP VERIF_COUNT=$RUNS VERIF_SCENARIO=$SCEN VERIF_REPLAY_DIR="$W/replays" VERIF_KNOWN=/verif/known_findings.txt VERIF_OUT="$W/out.json" "$W/sim.test" -test.run '^TestWorker$' -test.timeout 0 >"$W/log" 2>&1 || { [ -s "$W/out.json" ] || { tail -30 "$W/log"; echo "worker crashed"; exit 2; }; }
 python3 - "$W/out.json" <<'PY'
 import json,sys
 d=json.load(open(sys.argv[1]))
